@@ -56,16 +56,36 @@ def _init():
     _OP.update(prepare=prepare_problem, StreamSchema=StreamSchema, ZoneTreeSchema=ZoneTreeSchema)
 
 
-def replay(case):
+def twin_groups(case):
+    """user-tree cases: groups of >= 2 streams of one kind and name that the specification resolves to one and the same leaf zone"""
+    if not case["userTree"]:
+        return []
+    g = {}
+    for i, s in enumerate(case["streams"]):
+        if not case["carved"][i] and not case["newZone"][i]:
+            g.setdefault((s["kind"], s["name"], tuple(case["assign"][i])), []).append(i)
+    return [v for v in g.values() if len(v) >= 2]
+
+
+def replay(arg):
+    """arg = case, or (case, True): the streams of every twin group are then entered as IDENTICAL rows (same name, temperatures and duty
+    -- two equal parallel trains; seed C10e), and the group must be present with its multiplicity."""
+    case, twin = arg if isinstance(arg, tuple) else (arg, False)
     out = []
     streams = case["streams"]
     pad = (seed() % 2 == 1)
+    rep = list(range(len(streams)))
+    if twin:
+        for grp in twin_groups(case):
+            for i in grp:
+                rep[i] = grp[0]
+    mult = [rep.count(i) for i in range(len(streams))]
 
     def bad(clause, **d):
         out.append((clause, d))
     schemas = []
     for i, s in enumerate(streams):
-        q = 100.0 + i          # unique duty identifies the stream whatever it is called
+        q = 100.0 + rep[i]     # a duty of its own identifies the stream (or the group of identical rows) whatever it is called
         ts, tt = (200.0, 100.0) if s["kind"] == "H" else (50.0, 150.0)
         label = s["label"]
         # the same path written less tidily (the code trims whitespace around components; with a user tree it also drops empty
@@ -101,11 +121,12 @@ def replay(case):
     leaves = {p: z for p, z in zones.items() if not z.subzones}
     carved = case["carved"]
     for i in range(n):
-        if carved[i]:
+        if carved[i] or rep[i] != i:
             continue
         inleaf = [p for p, z in leaves.items() if content(z)[i] > 0]
-        if len(inleaf) != 1 or content(leaves[inleaf[0]])[i] != 1:
-            bad("C10.exactly_one_leaf", stream=i, label=streams[i]["label"], leaves=[list(p) for p in inleaf])
+        if len(inleaf) != 1 or content(leaves[inleaf[0]])[i] != mult[i]:
+            bad("C10.exactly_one_leaf", stream=i, label=streams[i]["label"], leaves=[list(p) for p in inleaf], identical_rows=mult[i],
+                found=[content(leaves[p])[i] for p in inleaf])
             continue
         leaf = inleaf[0]
         # ... and it is the zone the stream was labelled into: with a user tree the zone the specification resolves the
@@ -119,7 +140,7 @@ def replay(case):
             if leaf[:-1] != lab or not leaf[-1].startswith("O"):
                 bad("C10.leaf_is_the_labelled_zone", stream=i, label=streams[i]["label"], leaf=list(leaf), expected=list(lab) + ["O<k>"])
         for p, z in zones.items():
-            want = 1 if leaf[:len(p)] == p else 0
+            want = mult[i] if leaf[:len(p)] == p else 0
             if content(z)[i] != want:
                 bad("C10.once_in_each_ancestor_nowhere_else", stream=i, label=streams[i]["label"], zone=list(p), count=content(z)[i], expected=want)
                 break
@@ -149,7 +170,7 @@ def replay(case):
 def check(prop, tier, run: Run, replay_case=None):
     if replay_case is not None:
         _init()
-        out, _ = replay(replay_case["case"])
+        out, _ = replay((replay_case["case"], bool(replay_case["detail"].get("identical_rows", 1) > 1)))
         for clause, d in out:
             run.violation(clause, replay_case["case"], d)
         run.cov["evaluations"] = 1
@@ -166,8 +187,11 @@ def check(prop, tier, run: Run, replay_case=None):
         run.cov["exhaustive"] = True
         cases = sorted(res.cases, key=lambda c: json.dumps(c["streams"]))
         carved_total = 0
+        twins = [c for c in cases if twin_groups(c)]
+        run.notes.setdefault("replayed_with_identical_rows", {})[name] = len(twins)
+        jobs = [(c, False) for c in cases] + [(c, True) for c in twins]
         with Pool(16, initializer=_init) as pool:
-            for case, (out, flags) in zip(cases, pool.imap(replay, cases, chunksize=64)):
+            for (case, _tw), (out, flags) in zip(jobs, pool.imap(replay, jobs, chunksize=64)):
                 run.cov["evaluations"] += 1
                 run.cov["traces_validated_against_impl"] += 1
                 carved_total += sum(case["carved"])
